@@ -44,6 +44,8 @@ class Bail(Exception):
 
 NONNULL_CONSTS = set()     # dumps of `constants.NAME` expressions whose value is a literal other than None (filled by the loader)
 CLASS_METHODS = {}    # class name (defined once in the package) -> {method: (params without self, number of defaults)}
+FOREIGN_HOME_MODULES = set()     # top-level module names of the package (filled by the loader)
+FOREIGN_FUNCS = {}    # module-level functions of top-level package modules, likewise (callers import them by name)
 FOREIGN = {}          # method name -> FunctionDef: methods of package classes (defined once in the whole package, not known to the rule tables,
                       # touching only their own object) that callers in other classes / modules may have inlined
 SIGS = {}      # simple name -> parameter list, for classes (constructor, without self) and module-level functions defined once in the package
@@ -76,9 +78,55 @@ _CONTAINER_METHODS = set(n for t in (list, dict, set, bytes, bytearray, str, tup
     "send", "recv", "open", "wait", "notify", "set", "clear", "cancel", "result", "done", "flush", "seek", "tell", "readline", "drain", "shutdown", "settimeout"}
 
 
+def _foreign_body_ok(m, t, is_method):
+    """-> set of (name, binding) the body needs from its module, or None when the function cannot be inlined elsewhere"""
+    import builtins as _b
+    a = m.args
+    if a.vararg or a.kwarg or a.kwonlyargs or a.posonlyargs or (is_method and not a.args):
+        return None
+    if any(not isinstance(d, ast.Constant) for d in a.defaults):
+        return None
+    local = set(x.arg for x in a.args)
+    for n in ast.walk(m):
+        if isinstance(n, ast.Name) and isinstance(n.ctx, (ast.Store, ast.Del)):
+            local.add(n.id)
+        if isinstance(n, (ast.YieldFrom, ast.Await, ast.Global, ast.Nonlocal, ast.Lambda, ast.Try, ast.With)) or (isinstance(n, (ast.FunctionDef, ast.ClassDef)) and n is not m):
+            return None
+        if isinstance(n, ast.Yield) and not _simple_generator(m):
+            return None
+    needs = set()
+    binds = _module_bindings(t)
+    for n in ast.walk(m):
+        if isinstance(n, ast.Name) and isinstance(n.ctx, ast.Load) and n.id not in local and not hasattr(_b, n.id):
+            b_ = binds.get(n.id)
+            if b_ is not None and b_[0] in ("def", "import", "from"):
+                needs.add((n.id, b_))      # fine where the caller's module binds that name to the same thing (or not at all)
+            else:
+                return None          # reads a module-level variable of its own module
+    if _size(m.body) > 14:
+        return None
+    return needs
+
+
 def build_foreign(trees, known):
     """trees: {modname: tree}."""
     seen, out = {}, {}
+    FOREIGN_FUNCS.clear()
+    fseen = {}
+    for modname, t in trees.items():
+        for st in t.body:
+            if isinstance(st, ast.FunctionDef) and "." not in modname:
+                fseen[st.name] = fseen.get(st.name, 0) + 1
+                q = "%s.%s" % (modname, st.name)
+                if q in known or st.decorator_list or st.name.startswith("__"):
+                    continue
+                needs = _foreign_body_ok(st, t, False)
+                if needs is not None and not any(isinstance(n, ast.Call) and isinstance(n.func, ast.Name) and n.func.id == st.name for n in ast.walk(st)):
+                    st._sa_home = (modname, frozenset(needs))
+                    FOREIGN_FUNCS[st.name] = st
+    for k in list(FOREIGN_FUNCS):
+        if fseen.get(k) != 1:
+            del FOREIGN_FUNCS[k]
     for modname, t in trees.items():
         for st in t.body:
             if not isinstance(st, ast.ClassDef):
@@ -92,32 +140,13 @@ def build_foreign(trees, known):
                 q = "%s.%s.%s" % (modname, st.name, m.name)
                 if q in known or m.name in _CONTAINER_METHODS or m.name.startswith("_") or m.decorator_list:       # (private methods are called through self only)
                     continue
-                a = m.args
-                if a.vararg or a.kwarg or a.kwonlyargs or a.posonlyargs or not a.args or a.defaults:
-                    continue
                 if isinstance(m, ast.AsyncFunctionDef):
                     continue
-                local = set(x.arg for x in a.args)
-                ok = True
-                for n in ast.walk(m):
-                    if isinstance(n, ast.Name) and isinstance(n.ctx, (ast.Store, ast.Del)):
-                        local.add(n.id)
-                    if isinstance(n, (ast.Yield, ast.YieldFrom, ast.Await, ast.Global, ast.Nonlocal, ast.Lambda, ast.Try, ast.With)) or (isinstance(n, (ast.FunctionDef, ast.ClassDef)) and n is not m):
-                        ok = False
-                import builtins as _b
-                needs = set()
-                toplevel = set(x.name for x in t.body if isinstance(x, (ast.ClassDef, ast.FunctionDef, ast.AsyncFunctionDef)))
-                for n in ast.walk(m):
-                    if isinstance(n, ast.Name) and isinstance(n.ctx, ast.Load) and n.id not in local and not hasattr(_b, n.id):
-                        if n.id in toplevel:
-                            needs.add(n.id)      # a class / function of its own module: fine where the caller imports that very name from this module
-                        else:
-                            ok = False          # reads another name of its own module: may mean something else where it is inlined
-                    if isinstance(n, ast.Call) and isinstance(n.func, ast.Attribute) and isinstance(n.func.value, ast.Name) and n.func.value.id == a.args[0].arg:
-                        ok = False          # calls other methods of its object: keep the call graph simple
+                needs = _foreign_body_ok(m, t, True)
+                if needs is None or m.args.defaults:
+                    continue
                 m._sa_home = (modname, frozenset(needs))
-                if ok and _size(m.body) <= 12:
-                    out[m.name] = m
+                out[m.name] = m
     return {k: v for k, v in out.items() if seen.get(k) == 1}
 
 
@@ -133,6 +162,12 @@ def drop_dead_foreign(trees, logs=()):
                 refs.add(n.id)
             elif isinstance(n, ast.Constant) and isinstance(n.value, str) and n.value.isidentifier():
                 refs.add(n.value)
+    for name, fn in list(FOREIGN_FUNCS.items()):
+        if name in refs:
+            continue
+        for t in trees.values():
+            if any(st is fn for st in t.body):
+                t.body[:] = [st for st in t.body if st is not fn]
     for name, fn in list(FOREIGN.items()):
         if name in refs:
             continue
@@ -142,6 +177,25 @@ def drop_dead_foreign(trees, logs=()):
                     st.body[:] = [m for m in st.body if m is not fn] or [ast.Pass()]
                     for lg in logs[:1]:
                         lg.append("dropped fully inlined method %s.%s" % (st.name, name))
+
+
+def _module_bindings(t):
+    """name -> description of what a module-level name is bound to (imports and definitions)"""
+    out = {}
+    for st in t.body:
+        if isinstance(st, ast.Import):
+            for a in st.names:
+                out[(a.asname or a.name).split(".")[0]] = ("import", a.name if a.asname else a.name.split(".")[0])
+        elif isinstance(st, ast.ImportFrom):
+            for a in st.names:
+                out[a.asname or a.name] = ("from", (st.module or "").split(".")[-1], a.name)
+        elif isinstance(st, (ast.FunctionDef, ast.AsyncFunctionDef, ast.ClassDef)):
+            out[st.name] = ("def", st.name)
+        elif isinstance(st, ast.Assign):
+            for tg in st.targets:
+                if isinstance(tg, ast.Name):
+                    out[tg.id] = ("assign", ast.dump(st.value))
+    return out
 
 
 def flatten_new_bases(trees, known_classes, log=None):
@@ -162,7 +216,9 @@ def flatten_new_bases(trees, known_classes, log=None):
     classes = {k: v for k, v in classes.items() if count[k] == 1}
 
     def module_bindings(t):
-        """name -> description of what a module-level name is bound to (imports and definitions)"""
+        return _module_bindings(t)
+
+    def _unused(t):
         out = {}
         for st in t.body:
             if isinstance(st, ast.Import):
@@ -453,6 +509,8 @@ def _fold_test(t):
         if isinstance(op, (ast.Eq, ast.NotEq)) and type(a) is type(b):
             return ast.copy_location(ast.Constant(value=(a == b) if isinstance(op, ast.Eq) else (a != b)), t)
         return t
+    if isinstance(t, ast.Call) and isinstance(t.func, ast.Name) and t.func.id == "bool" and len(t.args) == 1 and not t.keywords and not isinstance(t.args[0], ast.Starred):
+        return _fold_test(t.args[0])          # only the truth value of a test matters
     if isinstance(t, ast.BoolOp):
         is_or = isinstance(t.op, ast.Or)
         vals = [_fold_test(v) for v in t.values]
@@ -742,9 +800,10 @@ def _stmt_effects(st):
 
 # ---------------------------------------------------------------------------------------------------------------------
 class FuncCanon(object):
-    def __init__(self, fn, modconsts, stats, clsmethods=None, attrtypes=None):
+    def __init__(self, fn, modconsts, stats, clsmethods=None, attrtypes=None, stable_attrs=None):
         self.clsmethods = clsmethods or {}
         self.attrtypes = attrtypes or {}     # instance attribute -> package class it is always constructed from
+        self.stable_attrs = stable_attrs or set()     # instance attributes bound in __init__ only: `self.X` names the same object for the object's life
         self.fn = fn
         self.modconsts = modconsts       # names of imported modules / module-level names (stable operands)
         self.stats = stats
@@ -776,6 +835,12 @@ class FuncCanon(object):
                 for a in n.names:
                     self.stores.setdefault((a.asname or a.name).split(".")[0], []).append(n)
 
+    def _self_name(self):
+        a = self.fn.args
+        if a.args and not any(_dec(d) in ("staticmethod", "classmethod") for d in self.fn.decorator_list):
+            return a.args[0].arg
+        return None
+
     def stable_name(self, name):
         """A name whose value cannot change while the function runs, as far as the function itself is concerned."""
         if name in self.captured:
@@ -796,7 +861,9 @@ class FuncCanon(object):
                 if not self.stable_name(n.id) and n.id not in IMMUTABLE_BUILTINS:
                     return False
             elif isinstance(n, ast.Attribute):
-                # only module attributes such as constants.CLSE
+                # module attributes such as constants.CLSE; `self.X` for an attribute that only the constructor binds
+                if isinstance(n.value, ast.Name) and self._self_name() == n.value.id and n.attr in self.stable_attrs and self.fn.name != "__init__" and not self.stores.get(n.value.id):
+                    continue
                 if not (isinstance(n.value, ast.Name) and n.value.id in self.modconsts and n.value.id not in self.params and not self.stores.get(n.value.id)):
                     return False
             elif isinstance(n, ast.Call):
@@ -884,7 +951,7 @@ class FuncCanon(object):
         changed = False
         for blk in _all_blocks(self.fn):
             top = blk is self.fn.body
-            if self.star(blk) or self.callsel(blk) or self.tuplepush(blk) or self.listcomp(blk) or self.unroll(blk) or self.lockwith(blk) or self.flagloop(blk) or self.thread(blk) or self.deadstore(blk) or self.kw(blk) or self.split(blk) or self.retsplit(blk) or self.forelse(blk) or self.dowhile(blk) or self.withsink(blk) or self.testsplit(blk) or self.rot(blk) or self.brk(blk, top) or self.wtop(blk) or self.ifs(blk) or self.sink(blk) or self.unpack(blk) or self.fwd(blk):
+            if self.star(blk) or self.callsel(blk) or self.tuplepush(blk) or self.sumloop(blk) or self.listcomp(blk) or self.unroll(blk) or self.lockwith(blk) or self.flagloop(blk) or self.thread(blk) or self.deadstore(blk) or self.kw(blk) or self.split(blk) or self.retsplit(blk) or self.yieldsplit(blk) or self.forelse(blk) or self.dowhile(blk) or self.withsink(blk) or self.testsplit(blk) or self.rot(blk) or self.brk(blk, top) or self.wtop(blk) or self.ifs(blk) or self.sink(blk) or self.unpack(blk) or self.fwd(blk):
                 return True
         return changed
 
@@ -897,6 +964,45 @@ class FuncCanon(object):
                     st.test = ft
                     self.bump("CONSTIF")
                     return True
+            if not self.stores.get("bool"):
+                for n in self._own_exprs(st):
+                    if isinstance(n, ast.IfExp):
+                        ft = _fold_test(n.test)
+                        if ft is not n.test:
+                            n.test = ft
+                            self.bump("CONSTIF")
+                            return True
+            for n in list(ast.walk(st)) if not isinstance(st, (ast.If, ast.While, ast.For, ast.AsyncFor, ast.With, ast.AsyncWith, ast.Try, ast.FunctionDef, ast.AsyncFunctionDef, ast.ClassDef)) else []:
+                # `a if True else b` -> a   (anywhere in a simple statement: only one arm is ever evaluated)
+                if isinstance(n, ast.IfExp) and isinstance(n.test, ast.Constant):
+                    _replace_node(st, n, n.body if n.test.value else n.orelse)
+                    self.bump("CONSTIF")
+                    return True
+                # f(x for x in it) -> f(it) for consumers that only iterate their argument
+                if isinstance(n, ast.Call) and len(n.args) == 1 and not n.keywords and isinstance(n.args[0], ast.GeneratorExp) and len(n.args[0].generators) == 1 \
+                        and not n.args[0].generators[0].ifs and not n.args[0].generators[0].is_async and isinstance(n.args[0].elt, ast.Name) \
+                        and isinstance(n.args[0].generators[0].target, ast.Name) and n.args[0].elt.id == n.args[0].generators[0].target.id \
+                        and ((isinstance(n.func, ast.Name) and n.func.id in ("sum", "list", "tuple", "sorted", "min", "max", "any", "all", "set", "frozenset") and not self.stores.get(n.func.id))
+                             or (isinstance(n.func, ast.Attribute) and n.func.attr == "join" and isinstance(n.func.value, ast.Constant))):
+                    n.args[0] = n.args[0].generators[0].iter
+                    self.bump("IDGEN")
+                    return True
+                # sum((A if c else B) for x in it) with c independent of x and effect-free -> sum(A for x in it) if c else sum(B for x in it)
+                if isinstance(n, ast.Call) and isinstance(n.func, ast.Name) and n.func.id == "sum" and not self.stores.get("sum") and len(n.args) == 1 and not n.keywords \
+                        and isinstance(n.args[0], (ast.GeneratorExp, ast.ListComp)) and len(n.args[0].generators) == 1 and not n.args[0].generators[0].ifs \
+                        and isinstance(n.args[0].elt, ast.IfExp) and not n.args[0].generators[0].is_async:
+                    ge = n.args[0]
+                    c = ge.elt.test
+                    bound = {x.id for x in ast.walk(ge.generators[0].target) if isinstance(x, ast.Name)}
+                    if not _has_effect(c) and not any(isinstance(x, ast.Name) and x.id in bound for x in ast.walk(c)) and not any(isinstance(x, (ast.Attribute, ast.Subscript)) for x in ast.walk(c)):
+                        def mk(arm):
+                            g2 = type(ge)(elt=arm, generators=copy.deepcopy(ge.generators))
+                            return ast.copy_location(ast.Call(func=ast.Name(id="sum", ctx=ast.Load()), args=[ast.copy_location(g2, ge)], keywords=[]), n)
+                        new = ast.copy_location(ast.IfExp(test=c, body=mk(ge.elt.body), orelse=mk(ge.elt.orelse)), n)
+                        ast.fix_missing_locations(new)
+                        _replace_node(st, n, new)
+                        self.bump("UNSWITCH")
+                        return True
             if not isinstance(st, ast.If):
                 continue
             t = st.test
@@ -985,6 +1091,38 @@ class FuncCanon(object):
                 continue
             stack.extend(ast.iter_child_nodes(n))
 
+    # -- SUMLOOP ---------------------------------------------------------------------------------------------------
+    def sumloop(self, blk):
+        """`t = K ; for v in IT: t += E`  ->  `t = K + sum((E for v in IT))`  (K an integer literal; `t = sum(..)` for K == 0) when the loop
+        body is that one statement, E has no effect and reads neither t nor anything the loop changes, v is not read afterwards."""
+        for i in range(1, len(blk)):
+            lp, init = blk[i], blk[i - 1]
+            if not (isinstance(lp, ast.For) and not lp.orelse and isinstance(lp.target, ast.Name) and len(lp.body) == 1):
+                continue
+            st = lp.body[0]
+            if not (isinstance(st, ast.AugAssign) and isinstance(st.op, ast.Add) and isinstance(st.target, ast.Name)):
+                continue
+            t, v = st.target.id, lp.target.id
+            if not (isinstance(init, ast.Assign) and len(init.targets) == 1 and isinstance(init.targets[0], ast.Name) and init.targets[0].id == t
+                    and isinstance(init.value, ast.Constant) and isinstance(init.value.value, int) and not isinstance(init.value.value, bool)):
+                continue
+            if t in self.captured or v in self.captured or t == v or _has_effect(st.value) or _has_effect(lp.iter):
+                continue
+            if any(isinstance(n, ast.Name) and n.id == t for e in (st.value, lp.iter) for n in ast.walk(e)):
+                continue
+            if any(isinstance(n, ast.Name) and n.id == v and isinstance(n.ctx, ast.Load) for s_ in blk[i + 1:] for n in ast.walk(s_)):
+                continue
+            gen = ast.GeneratorExp(elt=st.value, generators=[ast.comprehension(target=ast.Name(id=v, ctx=ast.Store()), iter=lp.iter, ifs=[], is_async=0)])
+            call = ast.Call(func=ast.Name(id="sum", ctx=ast.Load()), args=[gen], keywords=[])
+            val = call if init.value.value == 0 else ast.BinOp(left=init.value, op=ast.Add(), right=call)
+            new = ast.Assign(targets=[ast.Name(id=t, ctx=ast.Store())], value=val)
+            ast.copy_location(new, lp)
+            ast.fix_missing_locations(new)
+            blk[i - 1:i + 1] = [new]
+            self.bump("SUMLOOP")
+            return True
+        return False
+
     # -- LISTCOMP --------------------------------------------------------------------------------------------------
     def listcomp(self, blk):
         """`a = [] ; b = [] ; for v in IT: a.append(E1) ; b.append(E2)`   ->   `_it = IT ; a = [E1 for v in _it] ; b = [E2 for v in _it]`
@@ -1006,7 +1144,7 @@ class FuncCanon(object):
                     return False
             return True
         for i, lp in enumerate(blk):
-            if not (isinstance(lp, ast.For) and not lp.orelse and isinstance(lp.target, ast.Name) and lp.body):
+            if not (isinstance(lp, (ast.For, ast.AsyncFor)) and not lp.orelse and isinstance(lp.target, ast.Name) and lp.body):
                 continue
             v = lp.target.id
             apps = []
@@ -1038,8 +1176,8 @@ class FuncCanon(object):
             fresh_list = isinstance(it, ast.Call) and not it.keywords and (
                 (isinstance(it.func, ast.Name) and it.func.id in ("sorted", "list") and not self.stores.get(it.func.id)) or
                 (isinstance(it.func, ast.Attribute) and isinstance(it.func.value, ast.Name) and it.func.value.id == "os" and it.func.attr == "listdir"))
-            if not (isinstance(it, ast.Name) or fresh_list):
-                continue
+            if not (isinstance(it, ast.Name) or fresh_list or len(apps) == 1):
+                continue          # (a single list walks the iterable once, whatever it is)
             if isinstance(it, ast.Name) and (it.id in names or it.id == v):
                 continue
             # v must not be read after the loop (a comprehension keeps its variable to itself)
@@ -1050,6 +1188,8 @@ class FuncCanon(object):
             new = []
             if isinstance(it, ast.Name):
                 itn = it.id
+            elif len(apps) == 1:
+                itn = None
             else:
                 itn = "_it%d" % (1 + sum(1 for n in self.stores if n.startswith("_it")))
                 while itn in self.stores or itn in self.loads:
@@ -1057,7 +1197,7 @@ class FuncCanon(object):
                 new.append(ast.Assign(targets=[ast.Name(id=itn, ctx=ast.Store())], value=it))
                 self.fresh.add(itn)
             for nm, e in apps:
-                comp = ast.ListComp(elt=e, generators=[ast.comprehension(target=ast.Name(id=v, ctx=ast.Store()), iter=ast.Name(id=itn, ctx=ast.Load()), ifs=[], is_async=0)])
+                comp = ast.ListComp(elt=e, generators=[ast.comprehension(target=ast.Name(id=v, ctx=ast.Store()), iter=ast.Name(id=itn, ctx=ast.Load()) if itn else it, ifs=[], is_async=1 if isinstance(lp, ast.AsyncFor) else 0)])
                 new.append(ast.Assign(targets=[ast.Name(id=nm, ctx=ast.Store())], value=comp))
             for x in new:
                 ast.copy_location(x, lp)
@@ -1490,12 +1630,48 @@ class FuncCanon(object):
     def retsplit(self, blk):
         """`return a if c else b` -> `if c: return a` ; `return b`"""
         for i, st in enumerate(blk):
+            if isinstance(st, ast.Return) and isinstance(st.value, ast.BinOp):
+                # `return (a if c else b) & K` -> `return (a & K) if c else (b & K)`  (K a literal: nothing else is evaluated)
+                bo = st.value
+                for side, other in (("left", "right"), ("right", "left")):
+                    x, k = getattr(bo, side), getattr(bo, other)
+                    if isinstance(x, ast.IfExp) and isinstance(k, ast.Constant):
+                        def mk(arm):
+                            nb = ast.BinOp(left=arm, op=bo.op, right=copy.deepcopy(k)) if side == "left" else ast.BinOp(left=copy.deepcopy(k), op=bo.op, right=arm)
+                            return ast.copy_location(nb, bo)
+                        st.value = ast.copy_location(ast.IfExp(test=x.test, body=mk(x.body), orelse=mk(x.orelse)), bo)
+                        self.bump("RETSPLIT")
+                        return True
             if isinstance(st, ast.Return) and isinstance(st.value, ast.IfExp):
                 v = st.value
                 r1 = ast.copy_location(ast.Return(value=v.body), st)
                 r2 = ast.copy_location(ast.Return(value=v.orelse), st)
                 blk[i:i + 1] = [ast.copy_location(ast.If(test=v.test, body=[r1], orelse=[]), st), r2]
                 self.bump("RETSPLIT")
+                return True
+        return False
+
+    # -- YIELDSPLIT ------------------------------------------------------------------------------------------------
+    def yieldsplit(self, blk):
+        """`yield from (A if c else B)` -> `if c: yield from A else: yield from B`;  `for x in (A if c else B): S` -> the loop written once
+        per arm (S small).  The test is evaluated first in both spellings, then exactly one of A / B."""
+        for i, st in enumerate(blk):
+            if isinstance(st, ast.Expr) and isinstance(st.value, ast.YieldFrom) and isinstance(st.value.value, ast.IfExp):
+                ie = st.value.value
+                a = ast.copy_location(ast.Expr(value=ast.copy_location(ast.YieldFrom(value=ie.body), st)), st)
+                b = ast.copy_location(ast.Expr(value=ast.copy_location(ast.YieldFrom(value=ie.orelse), st)), st)
+                blk[i] = ast.copy_location(ast.If(test=ie.test, body=[a], orelse=[b]), st)
+                self.bump("YIELDSPLIT")
+                return True
+            if isinstance(st, (ast.For, ast.AsyncFor)) and isinstance(st.iter, ast.IfExp) and not st.orelse and _size(st.body) <= 6:
+                ie = st.iter
+                la = type(st)(target=copy.deepcopy(st.target), iter=ie.body, body=copy.deepcopy(st.body), orelse=[])
+                lb = type(st)(target=st.target, iter=ie.orelse, body=st.body, orelse=[])
+                for x in (la, lb):
+                    ast.copy_location(x, st)
+                    ast.fix_missing_locations(x)
+                blk[i] = ast.copy_location(ast.If(test=ie.test, body=[la], orelse=[lb]), st)
+                self.bump("YIELDSPLIT")
                 return True
         return False
 
@@ -1731,13 +1907,9 @@ class FuncCanon(object):
                 continue
             arms = []
             for e in (ie.body, ie.orelse):
-                d = self._decide(nx.test, v, e)
-                if d is None and not isinstance(e, ast.IfExp):
-                    arms = None
-                    break
-                arms.append((e, d))
-            if not arms or all(d is None for _e, d in arms):
-                continue
+                arms.append((e, self._decide(nx.test, v, e)))
+            if all(d is None for _e, d in arms):
+                continue          # (an arm that decides nothing keeps the test)
             # `if T: <leaves>` followed by the rest of the block: the rest is the else-arm
             absorb = not nx.orelse and always_exits(nx.body) and len(blk) > i + 2 and _size(blk[i + 2:]) <= 12
             if absorb:
@@ -2201,7 +2373,7 @@ class Inliner(object):
     def run(self):
         for _round in range(4):
             cands = self.candidates()
-            if not cands and not FOREIGN:
+            if not cands and not FOREIGN and not FOREIGN_FUNCS:
                 return
             any_done = False
             for cls, fn in self._functions():
@@ -2223,6 +2395,15 @@ class Inliner(object):
     def _match(self, call, cls, caller, cands):
         """-> (helper def, has receiver) if `call` is a call of a candidate helper from `caller`."""
         f = call.func
+        if isinstance(f, ast.Name) and f.id in FOREIGN_FUNCS and (None, f.id) not in cands and "." not in self.modname:
+            h = FOREIGN_FUNCS[f.id]
+            home, needs = h._sa_home
+            mine = _module_bindings(self.tree)
+            if home != self.modname and mine.get(f.id) == ("from", home.split(".")[-1], f.id) and f.id not in _params(caller) \
+                    and not any(isinstance(n, ast.Name) and n.id == f.id and isinstance(n.ctx, ast.Store) for n, _ in _fn_nodes(caller)) \
+                    and self._inlinable_def(h) and self._bindings_available(home, needs):
+                return h, False
+            return None
         if isinstance(f, ast.Name) and (None, f.id) in cands:
             h = cands[(None, f.id)]
             # not shadowed by a local
@@ -2240,7 +2421,7 @@ class Inliner(object):
             if (r in cps and nstores == 0 and not (cps and r == cps[0])) or (r not in cps and nstores == 1):
                 h = FOREIGN[f.attr]
                 home, needs = getattr(h, "_sa_home", (None, frozenset()))
-                if self._inlinable_def(h) and (home == self.modname or needs <= self._imported_from(home)):
+                if self._inlinable_def(h) and (home == self.modname or self._bindings_available(home, needs)):
                     return h, True
             return None
         if isinstance(f, ast.Attribute) and isinstance(f.value, ast.Name) and cls is not None and (cls, f.attr) in cands:
@@ -2253,6 +2434,47 @@ class Inliner(object):
             if cps and not caller_static and f.value.id == cps[0] and not any(isinstance(n, ast.Name) and n.id == cps[0] and isinstance(n.ctx, ast.Store) for n, _ in _fn_nodes(caller)):
                 return h, not static
         return None
+
+    def _bindings_available(self, home, needs):
+        """every module-level name the foreign body reads means the same thing here - names this module does not bind at all are imported
+        (the canonical module is never written anywhere, the import only serves name resolution)"""
+        mine = _module_bindings(self.tree)
+        last = (home or "").split(".")[-1]
+        missing = []
+        for name, b in sorted(needs):
+            here = mine.get(name)
+            want = ("from", last, name) if b[0] == "def" else b
+            if here is None:
+                missing.append((name, b))
+            elif here != want:
+                return False
+        for name, b in missing:
+            if b[0] == "def":
+                imp = ast.ImportFrom(module=last, names=[ast.alias(name=name, asname=None)], level=1)
+            elif b[0] == "from":
+                imp = ast.ImportFrom(module=b[1] or None, names=[ast.alias(name=b[2], asname=name if name != b[2] else None)], level=1 if b[1] in FOREIGN_HOME_MODULES or not b[1] else 0)
+            else:
+                imp = ast.Import(names=[ast.alias(name=b[1], asname=name if name != b[1].split(".")[0] else None)])
+            ast.fix_missing_locations(imp)
+            pos = 0
+            while pos < len(self.tree.body) and (isinstance(self.tree.body[pos], (ast.Import, ast.ImportFrom)) or
+                                                 (isinstance(self.tree.body[pos], ast.Expr) and isinstance(self.tree.body[pos].value, ast.Constant))):
+                pos += 1
+            self.tree.body.insert(pos, imp)
+            self.modconsts = _module_names(self.tree)
+        return True
+
+    def _same_bindings(self, home, needs):
+        mine = _module_bindings(self.tree)
+        last = (home or "").split(".")[-1]
+        for name, b in needs:
+            here = mine.get(name)
+            if b[0] == "def":
+                if here != ("from", last, name):
+                    return False
+            elif here != b:
+                return False
+        return True
 
     def _imported_from(self, home):
         """names this module imports, unrenamed, from the package module `home` (`from .hidden_helpers import X`)"""
@@ -2528,9 +2750,9 @@ class Inliner(object):
         fcn.fresh = set(fresh) | {ret}
         # parameters bound to arbitrary expressions: treat names of the caller as stable only if the caller never stores them
         fcn.run()
-        if not (len(tmpfn.body) == 1 and isinstance(tmpfn.body[0], ast.Return) and tmpfn.body[0].value is not None):
+        e = _returns_to_expr(tmpfn.body)
+        if e is None:
             raise Bail("not an expression helper in a position where statements cannot be hoisted")
-        e = tmpfn.body[0].value
         if _has_call(e) and False:
             pass
         holder = call
@@ -2567,6 +2789,22 @@ class Inliner(object):
             if isinstance(st, ast.ClassDef):
                 new = keep(st.body, st.name)
                 st.body[:] = new or [ast.Pass()]
+
+
+def _returns_to_expr(stmts):
+    """`if c: return a` ; `return b`  (nested likewise, nothing but tests and returns)  ->  the expression `a if c else b`; else None."""
+    if len(stmts) == 1 and isinstance(stmts[0], ast.Return) and stmts[0].value is not None:
+        return stmts[0].value
+    if stmts and isinstance(stmts[0], ast.If):
+        first, rest = stmts[0], stmts[1:]
+        if any(isinstance(n, (ast.Await, ast.Yield, ast.YieldFrom, ast.NamedExpr)) for n in ast.walk(first.test)):
+            return None
+        a = _returns_to_expr(first.body if always_exits(first.body) else first.body + rest)
+        b = _returns_to_expr(first.orelse if (first.orelse and always_exits(first.orelse)) else first.orelse + rest)
+        if a is None or b is None:
+            return None
+        return ast.copy_location(ast.IfExp(test=first.test, body=a, orelse=b), first)
+    return None
 
 
 def _tail_returns_to_breaks(body, is_none_ret):
@@ -2835,6 +3073,40 @@ def struct_objects(trees, log=None):
 
 
 # ---------------------------------------------------------------------------------------------------------------------
+def _module_tables(tree, stats):
+    """Module level: `T = {}` ; `for k in IT: T[k] = E`  ->  `T = {k: E for k in IT}`   (E does not read T; a following `del k` goes too) and
+    `L = []` ; `for k in IT: L.append(E)`  ->  `L = [E for k in IT]`: constant tables built by a loop are the same tables."""
+    body = tree.body
+    i = 0
+    while i + 1 < len(body):
+        a, lp = body[i], body[i + 1]
+        ok = isinstance(a, ast.Assign) and len(a.targets) == 1 and isinstance(a.targets[0], ast.Name) and isinstance(lp, ast.For) and not lp.orelse \
+            and isinstance(lp.target, ast.Name) and len(lp.body) == 1
+        new = None
+        if ok:
+            T, k, st = a.targets[0].id, lp.target.id, lp.body[0]
+            reads_T = lambda e: any(isinstance(n, ast.Name) and n.id == T for n in ast.walk(e))      # noqa: E731
+            if isinstance(a.value, ast.Dict) and not a.value.keys and isinstance(st, ast.Assign) and len(st.targets) == 1 and isinstance(st.targets[0], ast.Subscript) \
+                    and isinstance(st.targets[0].value, ast.Name) and st.targets[0].value.id == T and not reads_T(st.value) and not reads_T(st.targets[0].slice) and not reads_T(lp.iter):
+                new = ast.DictComp(key=st.targets[0].slice, value=st.value, generators=[ast.comprehension(target=ast.Name(id=k, ctx=ast.Store()), iter=lp.iter, ifs=[], is_async=0)])
+            elif isinstance(a.value, ast.List) and not a.value.elts and isinstance(st, ast.Expr) and isinstance(st.value, ast.Call) and isinstance(st.value.func, ast.Attribute) \
+                    and st.value.func.attr == "append" and isinstance(st.value.func.value, ast.Name) and st.value.func.value.id == T and len(st.value.args) == 1 and not st.value.keywords \
+                    and not reads_T(st.value.args[0]) and not reads_T(lp.iter):
+                new = ast.ListComp(elt=st.value.args[0], generators=[ast.comprehension(target=ast.Name(id=k, ctx=ast.Store()), iter=lp.iter, ifs=[], is_async=0)])
+        if new is not None:
+            k = lp.target.id
+            later_reads = any(isinstance(n, ast.Name) and n.id == k and isinstance(n.ctx, ast.Load) for s_ in body[i + 2:] for n in ast.walk(s_))
+            if not later_reads or (i + 2 < len(body) and isinstance(body[i + 2], ast.Delete)):
+                asg = ast.Assign(targets=[ast.Name(id=a.targets[0].id, ctx=ast.Store())], value=new)
+                ast.copy_location(asg, a)
+                ast.fix_missing_locations(asg)
+                n_del = 1 if (i + 2 < len(body) and isinstance(body[i + 2], ast.Delete) and all(isinstance(t, ast.Name) and t.id == k for t in body[i + 2].targets)) else 0
+                body[i:i + 2 + n_del] = [asg]
+                stats["MODTABLE"] = stats.get("MODTABLE", 0) + 1
+                continue
+        i += 1
+
+
 def canonicalise(tree, modname, known, stats=None, log=None):
     """Rewrite `tree` (a parsed module) in place into canonical form; returns the statistics dict."""
     stats = stats if stats is not None else {}
@@ -2875,26 +3147,49 @@ def canonicalise(tree, modname, known, stats=None, log=None):
                                 seen.setdefault(x.attr, set()).add(None)
         return {a: next(iter(cs)) for a, cs in seen.items() if len(cs) == 1 and None not in cs}
 
+    def stable_attrs(cls):
+        """attributes of self that are (re)bound in __init__ only (and the class has an __init__)"""
+        bound, elsewhere = set(), set()
+        has_init = False
+        for m in cls.body:
+            if isinstance(m, (ast.FunctionDef, ast.AsyncFunctionDef)) and m.args.args:
+                selfn = m.args.args[0].arg
+                if m.name == "__init__":
+                    has_init = True
+                for n in ast.walk(m):
+                    if isinstance(n, ast.Attribute) and isinstance(n.ctx, (ast.Store, ast.Del)) and isinstance(n.value, ast.Name) and n.value.id == selfn:
+                        (bound if m.name == "__init__" else elsewhere).add(n.attr)
+                    # setattr(self, ...) / self.__dict__ tricks: give up
+                    if isinstance(n, ast.Call) and isinstance(n.func, ast.Name) and n.func.id in ("setattr", "delattr", "vars"):
+                        elsewhere.add("*")
+                    if isinstance(n, ast.Attribute) and n.attr == "__dict__":
+                        elsewhere.add("*")
+        if not has_init or "*" in elsewhere or len(cls.bases) > 1:
+            return set()
+        return bound - elsewhere
+
     def each_function():
         for st in tree.body:
             if isinstance(st, (ast.FunctionDef, ast.AsyncFunctionDef)):
-                yield st, {}, {}
+                yield st, {}, {}, set()
             elif isinstance(st, ast.ClassDef):
                 mt = method_table(st)
                 at = attr_types(st)
+                sa = stable_attrs(st)
                 for m in st.body:
                     if isinstance(m, (ast.FunctionDef, ast.AsyncFunctionDef)):
-                        yield m, mt, at
+                        yield m, mt, at, sa
 
     def normalise():
-        for fn, mt, at in each_function():
-            fc = FuncCanon(fn, modconsts, stats, mt, at)
+        for fn, mt, at, sa in each_function():
+            fc = FuncCanon(fn, modconsts, stats, mt, at, sa)
             fc.fresh = _fresh_registry(fn)
             try:
                 fc.run()
             except Bail as e:
                 log.append("normalise %s: %s" % (fn.name, e))
 
+    _module_tables(tree, stats)
     normalise()
     inl = Inliner(tree, modname, known, stats, log)
     inl.run()
